@@ -15,6 +15,7 @@ import AioftpModel.Driver.Counters
 import AioftpModel.Driver.PortPool
 import AioftpModel.Driver.Names
 import AioftpModel.Driver.Calendar
+import AioftpModel.Driver.ClientTree
 
 open Codec Model Py
 
@@ -68,6 +69,7 @@ def handlePure : List String → Option String
   | "poolrun" :: rest => DriverPortPool.handlePortPool rest
   | "names" :: rest => DriverNames.handleNames rest
   | "calendar" :: rest => handleCalendar rest
+  | "ct" :: rest => DriverClientTree.handleClientTree rest
   | _ => none
 
 def handle (st : DState) (line : String) : DState × String :=
